@@ -33,6 +33,8 @@ class Interner:
         self.strs = []
 
     def __call__(self, s: str) -> int:
+        if not isinstance(s, str):      # a non-string where the API promises a string is an observation, not a crash
+            s = "\u2039non-string %r\u203a" % (s,)
         i = self.idx.get(s)
         if i is None:
             self.strs.append(s)
